@@ -19,7 +19,8 @@ from mc.ref import paths as RP
 ID = "C03"
 LEVEL = "exploration"
 
-FILES = (("", "x"), ("", "y"), ("sub", "z"))  # (directory under WD, name)
+# (directory under WD, name). The first two names differ only in Unicode normal form (NFC / NFD of "xé"): on Linux they are two files
+FILES = (("", "x\u00e9"), ("", "xe\u0301"), ("sub", "z"))
 NSPELL = 9
 
 
@@ -153,9 +154,18 @@ def run_case(acc, wd, tdefs, order, sig, case):
                       msg=f"{json.dumps(case, default=str)[:300]} differs in {diff}")
 
 
-def _wd():
+def _wd(symlinked=False):
     from mc.runner import worker_scratch
 
+    if symlinked:
+        # the working directory is reached through a symbolic link: resolution is lexical, so every spelling keeps the link's name
+        top = os.path.join(worker_scratch("c03"), "sym")
+        os.makedirs(os.path.join(top, "physical", "sub"), exist_ok=True)
+        wd = os.path.join(top, "base")
+        if not os.path.islink(wd):
+            os.symlink("physical", wd)
+        os.chdir(top)
+        return wd
     wd = os.path.join(worker_scratch("c03"), "base")
     os.makedirs(os.path.join(wd, "sub"), exist_ok=True)
     os.chdir(wd)
@@ -174,20 +184,20 @@ def pair_items():
 WDCFG = [("", False), ("sub", False), ("", True), ("sub", True), ("", "dotted"), ("sub", "dotted"), ("", "slashes")]
 
 
-def pair_batch(acc, batch):
-    wd = _wd()
+def pair_batch(acc, batch, symlinked=False):
+    wd = _wd(symlinked)
     for f, ko, ki in batch:
         other = (f + 1) % len(FILES)
-        for (awd, arel), (bwd, brel) in itertools.product(WDCFG, repeat=2):
-            for shape in SHAPES:
-                for order in ((0, 1, 2), (1, 0, 2), (2, 1, 0)):
+        for (awd, arel), (bwd, brel) in itertools.product([c for c in WDCFG if not (symlinked and c[1] is True)], repeat=2):
+            for shape in (SHAPES if not symlinked else ("list",)):
+                for order in (((0, 1, 2), (1, 0, 2), (2, 1, 0)) if not symlinked else ((0, 1, 2), (1, 0, 2))):
                     tdefs = [
                         dict(name="A", twd_rel=awd, relative_wd=arel, ins=[], outs=[(f, ko)], shape=shape),
                         dict(name="B", twd_rel=bwd, relative_wd=brel, ins=[(f, ki)], outs=[], shape=shape),
                         dict(name="C", twd_rel="", relative_wd=False, ins=[(other, 0)], outs=[], shape="list"),
                     ]
-                    case = dict(kind="pair", tdefs=tdefs, order=order)
-                    run_case(acc, wd, tdefs, order, dict(kind="pair", ko=min(ko, 3) if ko in (3, 4, 5) else "rel", ki=min(ki, 3) if ki in (3, 4, 5) else "rel"), case)
+                    case = dict(kind="pair", tdefs=tdefs, order=order, symlinked=symlinked)
+                    run_case(acc, wd, tdefs, order, dict(kind="pair", **(dict(symlinked=True) if symlinked else {}), ko=min(ko, 3) if ko in (3, 4, 5) else "rel", ki=min(ki, 3) if ki in (3, 4, 5) else "rel"), case)
 
 
 def all_items(n):
@@ -274,12 +284,13 @@ def run(ctx):
 
     quick = ctx.tier == "quick"
     ctx.pmap(me, "pair_batch", pair_items(), chunk=4)
+    ctx.pmap(me, "pair_batch", pair_items(), chunk=8, symlinked=True)
     ctx.pmap(me, "all_batch", all_items(2) + all_items(3), offsets=list(range(0, NSPELL, 2)) if quick else list(range(NSPELL)))
     ctx.pmap(me, "cli_batch", [it for it in pair_items() if quick is False or it[0] in (0, 2)], chunk=4)
     ctx.rule = ("pair: (file, output spelling, input spelling, both working dirs abs/relative, shape, definition order); all: (role assignment of 3 files "
                 "to n<=3 targets, spelling rotation offset, definition permutation); non-trivial = the reference relation has >=1 dependency edge")
     ctx.bound = dict(spellings=NSPELL, files=3, n=3, shapes=len(SHAPES), offsets=4 if quick else 8)
-    ctx.assumptions = ["lexical normalisation (no symlinks), no leading '//' (POSIX leaves it implementation-defined)"]
+    ctx.assumptions = ["lexical normalisation (a working directory reached through a symbolic link keeps the link's name), no leading '//' (POSIX leaves it implementation-defined)"]
 
 
 def replay(case):
@@ -289,7 +300,7 @@ def replay(case):
     if case["kind"] == "cli":
         cli_batch(acc, [(case["f"], case["ko"], case["ki"])])
         return [v for v in acc.violations if v["case"] == case or True]
-    wd = _wd()
+    wd = _wd(bool(case.get("symlinked")))
     tdefs = [dict(td, ins=[tuple(x) for x in td["ins"]], outs=[tuple(x) for x in td["outs"]]) for td in case["tdefs"]]
     run_case(acc, wd, tdefs, tuple(case["order"]), dict(kind=case["kind"]), case)
     return acc.violations
